@@ -669,6 +669,9 @@ fn driver_a(args: &Args, rep: &mut Report) {
         t += 1;
         t % stride == 0
     });
+    // singles and pairs first (always complete), triples afterwards (quick: until the time budget is used up)
+    work.sort_by_key(|(_, ops)| ops.len());
+    let triple_budget = Duration::from_secs(if thorough { 36000 } else { 6 });
     rep.set("a_op_multisets", json!(work.len()));
     let work = Arc::new(work);
     let ls = Arc::new(ls);
@@ -680,10 +683,16 @@ fn driver_a(args: &Args, rep: &mut Report) {
             let mut out = Partial::default();
             let mut coord = Coordinator::new();
             let mut distinct_orders: HashSet<u64> = HashSet::new();
+            let t0 = Instant::now();
             for (wi, (li, ops)) in work.iter().enumerate() {
                 if wi % n != ti {
                     continue;
                 }
+                if ops.len() >= 3 && t0.elapsed() > triple_budget {
+                    out.add("a_triples_skipped_for_time", 1);
+                    continue;
+                }
+                out.add(if ops.len() == 1 { "a_single_operations" } else if ops.len() == 2 { "a_operation_pairs" } else { "a_operation_triples" }, 1);
                 let l = &ls[*li];
                 for sched in schedules(ops) {
                     out.eval();
@@ -1481,7 +1490,7 @@ fn collapse_window(case: &BCase, i: usize) -> Option<BCase> {
 
 fn driver_b(args: &Args, rep: &mut Report) {
     let threads = ncpu().min(8);
-    let budget = Duration::from_secs(args.pick(9, 240));
+    let budget = Duration::from_secs(args.pick(8, 240));
     let max_cases: u64 = args.pick(1500, 60000);
     let parts = parallel(threads, args.seed ^ 0xB0B, move |ti, mut rng| {
         let mut out = Partial::default();
@@ -1675,7 +1684,7 @@ fn main() {
     }
     watchdog("C32", args.pick(240, 3600));
     let mut rep = Report::new("C32", "exploration", &args);
-    rep.rule = "driver a: every single operation, every pair and (quick: every 8th, thorough: every) triple of operations from a per-layout menu \
+    rep.rule = "driver a: every single operation, every pair and (quick: every 8th while a 6 s budget lasts, thorough: every) triple of operations from a per-layout menu \
 (deploy x every per-task outcome, teardown, manual migration x both outcomes x every target worker, deregister, register) in every order of their plan/commit phases, \
 on 3 layouts (2-3 workers, 1-2 groups); non-trivial = >=2 operations where one's state change falls inside the other's plan..commit window and both touch a common worker, \
 distinct by (layout, operations, order). driver b: real REST handlers / drain / failover / rebalance against gated loopback mock workers."
